@@ -91,12 +91,35 @@ def _wiring(ctx: Ctx, cp: FuncInfo, d: ast.Dict | None, init_params: list[str], 
             f"{who}.copy wires {cross or dropped}: " + ("the argument is taken from another attribute" if cross else "the attribute is replaced by None, the copy loses it"), key=f"{who}.wiring")
 
 
+def _table_driven_dict(fn: FuncInfo) -> ast.Dict | None:
+    """`{arg: getattr(self, attr) for arg, attr in TABLE.items()}` with TABLE a module-level dict of string literals, spelled out
+    as the dict literal `{"arg": self.attr, ...}` it denotes."""
+    for dc in [x for x in ast.walk(fn.node) if isinstance(x, ast.DictComp) and len(x.generators) == 1 and not x.generators[0].ifs]:
+        g = dc.generators[0]
+        if not (isinstance(g.target, ast.Tuple) and len(g.target.elts) == 2 and all(isinstance(e, ast.Name) for e in g.target.elts)):
+            continue
+        a_, b_ = g.target.elts[0].id, g.target.elts[1].id
+        it = g.iter
+        if not (isinstance(it, ast.Call) and isinstance(it.func, ast.Attribute) and it.func.attr == "items" and isinstance(it.func.value, ast.Name)):
+            continue
+        table = fn.module.assigns.get(it.func.value.id)
+        if not (isinstance(table, ast.Dict) and all(isinstance(k, ast.Constant) and isinstance(v, ast.Constant) and isinstance(v.value, str) for k, v in zip(table.keys, table.values))):
+            continue
+        if not (isinstance(dc.key, ast.Name) and dc.key.id == a_ and isinstance(dc.value, ast.Call) and dotted(dc.value.func) == "getattr" and len(dc.value.args) == 2
+                and norm(dc.value.args[0]) == "self" and isinstance(dc.value.args[1], ast.Name) and dc.value.args[1].id == b_):
+            continue
+        out = ast.Dict(keys=[ast.Constant(value=k.value) for k in table.keys], values=[ast.Attribute(value=ast.Name(id="self", ctx=ast.Load()), attr=v.value, ctx=ast.Load()) for v in table.values])
+        return ast.copy_location(ast.fix_missing_locations(out), dc)
+    return None
+
+
 def rule_copy_carries(ctx: Ctx) -> None:
     P = ctx.prog
     pf, npf, pl = P.cls(f"{PFM}.PipeFunc"), P.cls(f"{PFM}.NestedPipeFunc"), P.cls(f"{BASE}.Pipeline")
     for cls in (pf, npf):
         cp = cls.methods["copy"]
-        src = norm(cp.node)
+        td = _table_driven_dict(cp)
+        src = norm(cp.node) + (" " + norm(td) if td is not None else "")
         explicit = any(isinstance(x, ast.Dict) and any(isinstance(k, ast.Constant) for k in x.keys) for x in ast.walk(cp.node)) or f"{cls.name}(" in src
         for fld in STATE:
             ok = f"self.{fld}" in src
@@ -104,7 +127,7 @@ def rule_copy_carries(ctx: Ctx) -> None:
                     "copy() is not built from explicit constructor arguments", key=f"{cls.name}.{fld}")
     cp = pf.methods["copy"]
     init_params = [p for p in pf.methods["__init__"].param_names() if p not in ("self", "scope")]
-    d = next((x for x in ast.walk(cp.node) if isinstance(x, ast.Dict)), None)
+    d = next((x for x in ast.walk(cp.node) if isinstance(x, ast.Dict) and any(isinstance(k, ast.Constant) for k in x.keys)), None) or _table_driven_dict(cp)
     keys = [k.value for k in d.keys if isinstance(k, ast.Constant)] if d else []
     ok = set(keys) == set(init_params)
     ctx.add("1-copy-carries", cp, d if d is not None else cp.node, ok, f"every constructor argument ({len(init_params)}) is forwarded" if ok else f"PipeFunc.copy forwards {sorted(set(keys) ^ set(init_params))} differently from __init__", key="PipeFunc.ctor-args")
